@@ -856,7 +856,7 @@ impl XmlAttributeValue {
                         return Err(error::Error::InvalidData(v.to_string()));
                     }
                     // WFC: Entity Declared, No Recursion (in the replacement text)
-                    attr_value_from_name(v, context)?;
+                    check_entity_references(v, context, true)?;
                     let entity =
                         XmlUnexpandedEntityReference::node(entity, Some(parent_id), context);
                     Ok(Some(XmlAttributeValue::Entity(entity)))
@@ -2381,7 +2381,7 @@ impl XmlElement {
                                 return Err(error::Error::InvalidData(v.to_string()));
                             }
                             // WFC: Entity Declared, No Recursion (in the replacement text)
-                            entity_value_from_name(v, context, false)?;
+                            check_entity_references(v, context, false)?;
                             let entity =
                                 XmlUnexpandedEntityReference::node(entity, element_id, context);
                             element.borrow_mut().push_child(entity);
@@ -4417,6 +4417,58 @@ fn entity_value_from_names(
         }
     }
     Ok(parsed)
+}
+
+/// Checks the replacement text of the entity, and of every entity it refers to, without
+/// expanding it (the expansion may be exponentially larger than the declarations).
+fn check_entity_references(name: &str, context: &Context, attribute: bool) -> error::Result<()> {
+    fn check(
+        chain: &mut Vec<String>,
+        checked: &mut Vec<String>,
+        context: &Context,
+        attribute: bool,
+    ) -> error::Result<()> {
+        let name = chain.last().cloned().unwrap_or_default();
+        let entity = context.entity(name.as_str())?;
+        for value in entity.borrow().values().unwrap_or_default() {
+            match &value {
+                XmlEntityValue::Character(v, r) => {
+                    let c = match r {
+                        10 => char_from_char10(v)?,
+                        _ => char_from_char16(v)?,
+                    };
+                    // WFC: No < in Attribute Values
+                    if attribute && c == '<' {
+                        return Err(error::Error::InvalidData(name));
+                    }
+                }
+                XmlEntityValue::Entity(v) => {
+                    // WFC: No Recursion
+                    if chain.contains(v) {
+                        return Err(error::Error::InvalidData(v.to_string()));
+                    }
+
+                    if !checked.contains(v) {
+                        chain.push(v.to_string());
+                        check(chain, checked, context, attribute)?;
+                        chain.pop();
+                        checked.push(v.to_string());
+                    }
+                }
+                XmlEntityValue::Parameter(v) => {
+                    return Err(error::Error::InvalidData(format!("%{};", v)));
+                }
+                // WFC: No < in Attribute Values
+                XmlEntityValue::Text(v) if attribute && name != "lt" && v.contains('<') => {
+                    return Err(error::Error::InvalidData(name));
+                }
+                XmlEntityValue::Text(_) => {}
+            }
+        }
+        Ok(())
+    }
+
+    check(&mut vec![name.to_string()], &mut vec![], context, attribute)
 }
 
 fn char_from_char10(value: &str) -> error::Result<char> {
